@@ -30,6 +30,8 @@ T['C02'] = ("""C02 Each field maps to one attribute, named and typed as document
     ('C02_schema_entry_origin', 'schema_entry_origin', 'and conversely every schema entry stems from a declared field (directly or promoted from an embedded message), is the placeholder of a field-less message, or is an injected attribute: no stray attributes'),
     ('C02_schema_names', 'schema_names_distinct', 'the attribute names of a schema are pairwise distinct and are exactly the documented names'),
     ('C02_schema_through_run', 'schema_entry_through_run', 'the same stated for the roots the plugin emits for a request (through run)'),
+    ('C02_source_kind_rules', 'src_kind_rules_agree', "tie to the source: the decision rules of field.go getKind, as read on this run, give for all 32 combinations of the five flags the kind the model's front end decides"),
+    ('C02_kind_from_source', 'build_view_kind_from_source', "and the kind of every field the front end builds is what those rules give for the field's flags (custom type, map, map of messages, repeated, message)"),
 ])
 
 T['C03'] = ("""C03 CopyTo into an empty schema-typed object is total and schema-conformant (proved for the class tf_ok:
@@ -40,6 +42,7 @@ every kind except custom types and nullable embedded messages, oneofs and nestin
     ('C03_no_unknown', 'copy_to_clean', 'for EVERY message and value: if the target holds nothing unknown, neither does the result (any depth)'),
     ('C03_total_embedded_partial', 'copy_to_total_embedded_partial', 'the same for messages with fields promoted from nullable (pointer) embedded messages (class emb_ok: one embedded pointer per promoted field, any of the six kinds below it), whether the embedded message is set or nil'),
     ('C03_conforms_embedded_partial', 'copy_to_conforms_embedded_partial', 'and the result conforms to the schema type, without diagnostics'),
+    ('C03_total_chain_partial', 'copy_to_total_chain_partial', 'and for chains of nullable embedded messages of any length (each pointer nil or set): total, no diagnostics, schema-conformant'),
 ])
 
 T['C04'] = ("""C04 Object -> Terraform -> object round trip is lossless (proved for whole messages of the class rt_ok: every
@@ -93,6 +96,7 @@ T['C06'] = ("""C06 Malformed input becomes diagnostics, never a panic.""", [
     ('C06_from_damage_is_local_partial', 'copy_from_damage_is_local_partial', 'all well-formed attributes are still copied: two objects that agree outside a set K of attribute names are read identically on every field whose attribute is outside K and on every oneof none of whose branches is in K (class: no promoted fields at top level)'),
     ('C06_from_deletions_local_partial', 'copy_from_deletions_local_partial', 'in particular after deleting attributes: the others are read exactly as from the intact object and every deleted one is reported, once'),
     ('C06_from_nil_attrs', 'copy_from_nil_attrs_all_reported', 'an object without attribute map reports every field'),
+    ('C06_from_total_chain_partial', 'copy_from_total_chain_partial', 'CopyFrom with chains of nullable embedded messages of any length returns on every payload-typed object; an outermost pointer all of whose promoted attributes are null/unknown/missing ends nil; a known non-null promoted attribute ends with every pointer on its chain set'),
 ])
 
 T['C07'] = ("""C07 Oneof groups stay exclusive in both directions.""", [
@@ -238,6 +242,10 @@ T['C17'] = ("""C17 Custom-type fields are delegated to the user's three hooks.""
     ('C17_copy_to_missing', 'to_field_custom_missing', 'a missing attribute type is reported'),
     ('C17_copy_from', 'from_field_custom', 'CopyFrom calls CopyFrom<S>(attribute value or nil, field) and reports a missing attribute'),
     ('C17_default_suffix', 'default_suffix_clean', 'the default suffix is the type name without dots and slashes'),
+    ('C17_to_delegated_message', 'copy_to_custom_delegated', 'message level, any hook: CopyTo of a message WITH custom-type fields never fails, every custom attribute is exactly what CopyTo<S> returned for the field value, the attribute type and no current value, and every other attribute conforms to its schema type (class tf_ok extended by custom fields)'),
+    ('C17_from_delegated_message', 'copy_from_custom_delegated', 'message level: after CopyFrom the custom field holds what CopyFrom<S> returned for the attribute (nil when missing, which is reported) and the value the target held; nothing else writes it'),
+    ('C17_from_total_message', 'copy_from_total_custom_partial', 'CopyFrom with custom fields returns on every payload-typed object'),
+    ('C17_round_trip', 'copy_custom_round_trip_partial', "if the user's two functions are inverse on a value, the field survives CopyTo then CopyFrom"),
 ])
 
 T['C18'] = ("""C18 A selected type is generated whole or not at all.""", [
@@ -284,4 +292,5 @@ T['C20'] = ("""C20 On an empty target, absence is rendered as null and presence 
     ('C20_present_not_null', 'copy_to_present_not_null', 'presence as non-null'),
     ('C20_every_depth', 'copy_to_nullness_every_depth', 'the same for every attribute of every nested object reached through non-null objects, list elements and map values'),
     ('C20_null_iff_absent', 'val_nl_iff', 'null if and only if absent, non-null if and only if present'),
+    ('C20_broken_chain_renders_null', 'copy_to_broken_chain_renders_null', 'a field promoted through a chain of nullable embedded messages is rendered null as soon as one pointer on the chain is nil'),
 ])
